@@ -7,3 +7,7 @@ pub mod runner;
 pub mod worker;
 pub mod refsql;
 pub mod sqlast;
+pub mod sqlgen;
+pub mod export;
+pub mod kf_sql;
+pub mod sqlcheck;
